@@ -136,7 +136,7 @@ SignEv ==
              \* ---- C01: the signature verifies, for exactly this message, with the true path
              \o When(ok /\ ~pre.counterOnly /\ Z(e.sig.auth) # AuthPath(e.sig.idx),
                      V("C01", "authentication path in the signature is not the path of the index it carries"))
-             \o When(ok /\ ~pre.counterOnly /\ RootFromPath(e.sig.idx, Z(e.sig.auth)) # ROOT,
+             \o When(ok /\ ~pre.counterOnly /\ Len(e.sig.auth) = H /\ RootFromPath(e.sig.idx, Z(e.sig.auth)) # ROOT,
                      V("C01", "root recomputed from the signature's authentication path is not the tree root"))
              \o When(ok /\ ~pre.counterOnly /\ e.sig.verify = "false", V("C01", "xmss.Verify rejects the signature the key returned"))
              \o When(ok /\ ~pre.counterOnly /\ e.sig.verifyOther = "true", V("C01", "xmss.Verify accepts the signature for a different message"))
@@ -194,11 +194,18 @@ Drop ==
   /\ counts' = [counts EXCEPT !["Drop"] = @ + 1]
   /\ UNCHANGED <<drift, firstDrift, viols, nviols>>
 
+\* re-creating a key from what the original exported did not return an object
+RebuildFailed ==
+  /\ Ev.ev = "RebuildFailed"
+  /\ Record(V("C08", "re-creating the key from its exported secret failed"))
+  /\ counts' = counts
+  /\ UNCHANGED <<keys, fams, drift, firstDrift>>
+
 Step == /\ l <= Len(Trace)
         /\ ~done
         /\ l' = l + 1
         /\ done' = FALSE
-        /\ (KeyGen \/ SignEv \/ SetIndexEv \/ Clone \/ Drop)
+        /\ (KeyGen \/ SignEv \/ SetIndexEv \/ Clone \/ Drop \/ RebuildFailed)
 
 Finish == /\ l = Len(Trace) + 1
           /\ ~done
